@@ -498,3 +498,67 @@ def rule_N7(ctx):
         elif f["name"].startswith("ok_"):
             r.neg_control(f["name"], not hit)
     return r
+
+
+# --------------------------------------------------------------------------------------- N8
+# no hand-made range prediction: whether an integer result is representable is decided by the checked primitive's own
+# overflow flag.  A comparison of an integer operand with a constant other than the documented domain bounds of the
+# operation (zero: divisor, negative exponent; 0/31/32: shift counts; -1: the MIN / -1 case) predicts overflow by hand -
+# and the 32-bit range is asymmetric, so such predictions are off by one at the edges ((-2) ** 31 is representable).
+N8_DOMAIN = {"bitwise_shift_left": {0, 31, 32}, "bitwise_shift_right": {0, 31, 32}, "divide": {0, -1}, "integer_divide": {0, -1}, "remainder": {0, -1}}
+_MAGNITUDE = {"unsigned_abs", "abs", "leading_zeros", "trailing_zeros", "leading_ones", "count_ones", "ilog2", "ilog10", "ilog", "checked_ilog2", "signum", "wrapping_abs", "abs_diff"}
+
+
+def n8_sites(F, root):
+    _prims, seen = n7_reach(F, root)
+    allowed = N8_DOMAIN.get(root["name"], {0})
+    out, n = [], 0
+    for p in sorted(seen):
+        f = F.fns[p]
+        mir = f["mir"]
+        asg = mirq.assignments(mir)
+        for b in mir["blocks"]:
+            if b["cleanup"]:
+                continue
+            for s in b["stmts"]:
+                if s["k"] != "Assign" or s["rv"]["k"] != "BinaryOp" or s["rv"]["op"] not in ("Lt", "Le", "Gt", "Ge", "Eq", "Ne") or s["rv"].get("lty") not in INT_TYS or s.get("exp"):
+                    continue
+                n += 1
+                why = None
+                for o in (s["rv"]["l"], s["rv"]["r"]):
+                    if "const" in o:
+                        c = o["const"].get("int")
+                        if c is not None and c not in allowed and not (c > 2 ** 31 and (c - 2 ** 32) in allowed) and not (c > 2 ** 63 and (c - 2 ** 64) in allowed):
+                            why = "compares with the constant %s" % (o["const"].get("txt") or c)
+                    else:
+                        l = mirq.op_local(o)
+                        for og in (mirq.origins(mir, l, asg) if l is not None else []):
+                            if og[1] == "term" and last(og[2].get("def") or "") in _MAGNITUDE:
+                                why = "compares a magnitude (%s)" % last(og[2]["def"])
+                if why:
+                    out.append((loc(s), why, f["name"]))
+    return out, n
+
+
+def rule_N8(ctx):
+    F = ctx.F
+    r = RuleResult("N8", "no hand-made range prediction: the number implementation decides 'not representable' by the checked primitive's overflow flag - integer operands are compared only with the operation's documented domain bounds, never with thresholds or magnitudes that predict an overflow")
+    roots, _scope = number_scope(F)
+    r.floor("GarnishNumber methods of SimpleNumber", len(roots), 17)
+    total = 0
+    for f in sorted(roots, key=lambda x: x["path"]):
+        sites, n = n8_sites(F, f)
+        total += n
+        r.examine(f["path"], True, {"method": f["name"], "integer_comparisons": n, "predictions": len(sites)} if n else None)
+        for k, (where, why, fn) in enumerate(sites):
+            r.finding(f["path"], "range-prediction:%s#%d" % (f["name"], k + 1), where, "`%s` %s at %s (in %s) to decide whether a result exists: overflow is predicted by hand instead of read from the checked operation's flag - the i32 range is asymmetric, so a threshold is wrong at an edge (e.g. (-2) ** 31 = i32::MIN is representable)" % (f["name"], why, where, fn))
+    r.analysed["integer_comparisons_examined"] = total
+    for f in F.fns_in("gfixture::round3::n8::"):
+        if f["kind"] == "Closure" or not f.get("name", "").startswith(("ctl_", "ok_")):
+            continue
+        sites, _n = n8_sites(F, dict(f, name=f["name"].split("_", 1)[1].split("__")[0]))
+        if f["name"].startswith("ctl_"):
+            r.control(f["name"], bool(sites))
+        else:
+            r.neg_control(f["name"], not sites)
+    return r
